@@ -224,6 +224,44 @@ fn render_time(t: &Option<RecipeTime>) -> String {
     }
 }
 
+/// every string (and the text of every number) occurring in a yaml value, keys included: the texts whose
+/// alphabetic characters / unit names the model is told about
+fn texts_of(v: &Value, out: &mut Vec<String>) {
+    match v {
+        Value::String(s) => out.push(s.clone()),
+        Value::Number(n) => out.push(n.to_string()),
+        Value::Sequence(l) => l.iter().for_each(|e| texts_of(e, out)),
+        Value::Mapping(m) => m.iter().for_each(|(k, v)| { texts_of(k, out); texts_of(v, out) }),
+        _ => {}
+    }
+}
+
+fn has_tagged(v: &Value) -> bool {
+    match v {
+        Value::Tagged(_) => true,
+        Value::Sequence(l) => l.iter().any(has_tagged),
+        Value::Mapping(m) => m.iter().any(|(k, v)| has_tagged(k) || has_tagged(v)),
+        _ => false,
+    }
+}
+
+/// all accessors of `Metadata` (src/metadata.rs:116-217), rendered like `renderMetaAccessors` of
+/// lean/CookModel/Driver/Tie.lean
+fn render_meta_accessors(m: &cooklang::Metadata, conv: &Converter) -> String {
+    let ot = |s: Option<&str>| match s { Some(t) => format!("some {}", enc_text(t)), None => "none".into() };
+    let nu = |n: Option<cooklang::metadata::NameAndUrl>| match n { Some(n) => format!("some {} {}", opt_text(n.name()), opt_text(n.url())), None => "none".into() };
+    [
+        format!("title {}", ot(m.title())),
+        format!("description {}", ot(m.description())),
+        format!("tags {}", match m.tags() { Some(l) => format!("some [{}]", l.iter().map(|t| enc_text(t)).collect::<Vec<_>>().join(";")), None => "none".into() }),
+        format!("author {}", nu(m.author())),
+        format!("source {}", nu(m.source())),
+        format!("time {}", render_time(&m.time(conv))),
+        format!("servings {}", match m.servings() { Some(l) => format!("some {}", nats(&l)), None => "none".into() }),
+        format!("locale {}", match m.locale() { Some((l, d)) => format!("some {} {}", enc_text(l), opt_text(d)), None => "none".into() }),
+    ].join(" | ")
+}
+
 // ---------------------------------------------------------------------------------------------
 // expectations
 // ---------------------------------------------------------------------------------------------
@@ -363,6 +401,20 @@ impl<'a> Run<'a> {
         }
     }
 
+    /// The `Metadata` accessors over the whole mapping of a parsed recipe against `Side/StdMetaMap.lean`
+    /// (`impl_reply` = `render_meta_accessors` of that recipe's metadata, computed where the recipe was alive).
+    fn metadata(&mut self, ci: usize, map: &serde_yaml::Mapping, impl_reply: String, family: &str, input: &str) {
+        let c = &self.convs[ci];
+        let whole = Value::Mapping(map.clone());
+        if has_tagged(&whole) { self.ctx.count("metadata:skipped-tagged-value"); return; }
+        let mut texts = vec![]; texts_of(&whole, &mut texts);
+        if texts.iter().any(|t| huge_exp(t)) { self.ctx.count("metadata:skipped-huge-exponent"); return; }
+        let refs: Vec<&str> = texts.iter().map(|t| t.as_str()).collect();
+        self.ctx.count(&format!("metadata:{family}:{}-entries", map.len().min(4)));
+        let nontrivial = impl_reply.contains("some ") || impl_reply.contains("total ") || impl_reply.contains("composed ");
+        self.ctx.case(format!("sm_metadata {} {} {}", c.enc(&refs), enc_alpha(&refs), enc_yaml(&whole)), impl_reply, nontrivial, format!("Metadata accessors of {input}"));
+    }
+
     /// One metadata entry through the real parser: "Unsupported value" warning iff the accessor gives nothing.
     fn entry(&mut self, ci: usize, key: &str, v: &Value, old_style: bool) {
         let c = &self.convs[ci];
@@ -382,12 +434,16 @@ impl<'a> Run<'a> {
             let errors = res.report().errors().count();
             let out = res.output().map(|rec| (rec.metadata.map.clone(), rec.servings().map(|s| s.to_vec()),
                 rec.metadata.tags().is_some(), rec.metadata.servings().is_some(), rec.metadata.time(&c.conv), rec.metadata.locale().is_some(),
-                rec.metadata.author().is_some(), rec.metadata.source().is_some(), rec.metadata.title().is_some(), rec.metadata.description().is_some()));
+                rec.metadata.author().is_some(), rec.metadata.source().is_some(), rec.metadata.title().is_some(), rec.metadata.description().is_some(),
+                render_meta_accessors(&rec.metadata, &c.conv)));
             (warns, errors, out)
         });
         let (warns, errors, out) = match r { Ok(x) => x, Err(p) => { self.panic(&input, p); return; } };
-        let Some((map, data, m_tags, m_serv, m_time, m_loc, m_auth, m_src, m_title, m_desc)) = out else { self.ctx.count("entry:no-output"); return; };
+        let Some((map, data, m_tags, m_serv, m_time, m_loc, m_auth, m_src, m_title, m_desc, m_all)) = out else { self.ctx.count("entry:no-output"); return; };
         if errors > 0 { self.ctx.count("entry:parse-error"); return; }
+        // correspondence: every `Metadata` accessor over the stored mapping (Side/StdMetaMap.lean)
+        self.metadata(ci, &map, m_all, "entry", &input);
+        let c = &self.convs[ci];
         // the value as the parser stored it (yaml re-read / trimmed old-style text)
         let stored_key = if old_style { key.trim().to_string() } else { key.to_string() };
         let Some(stored) = map.get(stored_key.as_str()).cloned() else { self.ctx.count("entry:key-not-stored"); return; };
@@ -800,10 +856,13 @@ fn time_precedence_cases(run: &mut Run, rng: &mut Rng, n: usize) {
         let input = format!("Metadata::time of {text:?} with the {} converter", conv.name);
         let r = guarded(|| conv.parser.parse(&text).output().map(|rec| {
             let m = &rec.metadata;
-            (m.time(&conv.conv), m.get(StdKey::Time).map(|v| v.as_time(&conv.conv)), m.get(StdKey::PrepTime).and_then(|v| v.as_minutes(&conv.conv)), m.get(StdKey::CookTime).and_then(|v| v.as_minutes(&conv.conv)))
+            (m.time(&conv.conv), m.get(StdKey::Time).map(|v| v.as_time(&conv.conv)), m.get(StdKey::PrepTime).and_then(|v| v.as_minutes(&conv.conv)), m.get(StdKey::CookTime).and_then(|v| v.as_minutes(&conv.conv)),
+             m.map.clone(), render_meta_accessors(m, &conv.conv))
         }));
         let out = match r { Ok(x) => x, Err(p) => { run.panic(&input, p); continue; } };
-        let Some((got, tv, pv, cv)) = out else { run.ctx.count("time-precedence:no-output"); continue; };
+        let Some((got, tv, pv, cv, map, m_all)) = out else { run.ctx.count("time-precedence:no-output"); continue; };
+        // correspondence: `Metadata::time` (and the other accessors) over the whole mapping (Side/StdMetaMap.lean)
+        run.metadata(ci, &map, m_all, "time-precedence", &input);
         run.ctx.eval("", got.is_some());
         let want = match tv { Some(t) => t, None => if pv.is_some() || cv.is_some() { Some(RecipeTime::Composed { prep_time: pv, cook_time: cv }) } else { None } };
         run.ctx.count(&format!("time-precedence:{}", match (&tv, &want) { (Some(None), _) => "time-unreadable", (Some(_), _) => "time-read", (None, Some(_)) => "composed", (None, None) => "nothing" }));
